@@ -99,6 +99,13 @@ def lagrange(vk, cfg):
     dets = require_valid_cell(vk, el, X, qp)
     if vk.sym and not user:
         vk.ensures_true("template records its order", probe.order == order, str(probe.order), backend="exec")
+        # the default rule follows the template's `permute` like the element does: quadrature point q is the Gauss point next
+        # to cell point q in BOTH numberings (what extrapolation to the points relies on) -- the rule GaussLegendre(order, dim,
+        # permute=permute), point by point
+        with symnp.native():
+            ref = fem.GaussLegendre(order=order, dim=dim, permute=permute)
+        same = np.shape(ref.points) == np.shape(qp) and bool(np.array_equal(np.asarray(ref.points, dtype=float), qp)) and bool(np.array_equal(np.asarray(ref.weights, dtype=float), w))
+        vk.ensures_true(f"default rule == GaussLegendre(order={order}, dim={dim}, permute={permute}), points and weights in the same order", same, f"first points: template {qp[:2].tolist()} vs {np.asarray(ref.points)[:2].tolist()}", backend="exec")
     region = fem.RegionLagrange(mesh, order=order, dim=dim, quadrature=_exact(vk, q_native), permute=permute)
     tol = 1e-10 * max(1, order**dim)
     # geometry
